@@ -54,6 +54,8 @@ struct Ghost {
     dropped: BTreeSet<usize>,               // tags for which no link was returned
     last_attempt: BTreeMap<u64, (u64, bool)>, // conn id -> (time of last reconnect attempt, established before?)
     torn_at: BTreeMap<u64, u64>, // conn id -> time of the tear-down that left the link down (cleared on rejoin)
+    win_injected: BTreeSet<u64>, // conn ids whose window was injected by `setlink w=` while the link was down
+    last_hk: Option<u64>,        // time of the previous housekeeping tick (coverage counter only)
 }
 
 struct SysComp {
@@ -283,6 +285,8 @@ impl SysComp {
             let id = (i + 1) as u64;
             let recv = StdUdp::bind("127.0.0.1:0").unwrap();
             recv.set_nonblocking(true).unwrap();
+            // harness-owned receiver: room for a full backlog of MTU-sized datagrams between two captures
+            let _ = socket2::SockRef::from(&recv).set_recv_buffer_size(2 << 20);
             let remote = recv.local_addr().unwrap();
             let sock = socket2::Socket::new(socket2::Domain::IPV4, socket2::Type::DGRAM, Some(socket2::Protocol::UDP)).unwrap();
             sock.bind(&"127.0.0.1:0".parse::<SocketAddr>().unwrap().into()).unwrap();
@@ -302,6 +306,7 @@ impl SysComp {
         let listener = self.rt.block_on(async { tokio::net::UdpSocket::bind("127.0.0.1:0").await.unwrap() });
         let client = StdUdp::bind("127.0.0.1:0").unwrap();
         client.set_nonblocking(true).unwrap();
+        let _ = socket2::SockRef::from(&client).set_recv_buffer_size(2 << 20);
         let client_addr = client.local_addr().unwrap();
         self.w = Some(World {
             links,
@@ -406,15 +411,20 @@ impl Component for SysComp {
         "sys: scripted-random event-loop histories (60-300 events) on the real shell over loopback sockets: \
          registration handshake (REG_NGP / REG2 / broadcast / REG3, with lost, late and wrong-link replies, optional \
          RTT probing), then client datagrams (data with increasing / repeated sequence numbers, retransmit flag, \
-         control packets, 16..1316 bytes, unique payload counters), 15 ms flush ticks, 1 s housekeeping ticks, uplink \
-         traffic (SRT ACK, NAK incl. ranges, SRTLA ACK lists, keepalive echoes timely/late/future/zero/truncated, \
-         unknown types, short datagrams, REG_ERR / REG_NGP mid-stream), link silence past the timeout, send-failure \
-         injection, config changes (mode, quality, guard, thresholds, timeout), critical windows, weak / loss-degraded \
-         / CC-target stamps. Non-trivial: registration completed and at least one datagram was put on the wire."
+         control packets of 18 type codes, every size class 0 / 1..3 / 4..7 / 8..23 / 24..1316 / 1317..1500 bytes, \
+         unique payloads), 15 ms flush ticks, housekeeping ticks 1000 ms or 1001..1999 ms apart, uplink traffic (SRT \
+         ACK, NAK incl. ranges and long lists, SRTLA ACK lists up to 374 entries, keepalive echoes timely/late/future/\
+         zero/truncated/with long trailers, unknown types, short datagrams, relayed datagrams of 63..1500 bytes, one \
+         type-sweep sample per case over the SRT control page + neighbours of the SRTLA codes, odd-sized registration \
+         replies, REG_ERR / REG_NGP mid-stream), uplink-channel backlogs up to 100 datagrams, link silence past the \
+         timeout, send-failure injection, config changes (mode, quality, guard, thresholds, timeout), critical windows, \
+         weak / loss-degraded / CC-target stamps, injected window vectors on the boundaries of every window rule. \
+         Thorough tier: cases up to 450 steps. Non-trivial: registration completed and at least one datagram was put \
+         on the wire."
     }
 
-    fn gen_case(&mut self, rng: &mut Rng, _tier: Tier, idx: usize) -> Vec<String> {
-        gen_case(rng, idx)
+    fn gen_case(&mut self, rng: &mut Rng, tier: Tier, idx: usize) -> Vec<String> {
+        gen_case(rng, tier, idx)
     }
 
     fn start_case(&mut self) {
@@ -430,6 +440,69 @@ impl Component for SysComp {
     }
 
     fn exec(&mut self, toks: &[&str], mon: &mut Mon) -> String {
+        let out = self.exec_op(toks, mon);
+        self.mon_c02(mon, toks);
+        out
+    }
+
+    fn end_case(&mut self, mon: &mut Mon) {
+        // C01 exactly-once at the end of the case: every accepted tag was sent, is still queued,
+        // was legitimately lost, or was dropped with no usable link.
+        let Some(w) = self.w.as_ref() else { return };
+        let mut seen: BTreeMap<usize, usize> = BTreeMap::new();
+        for tags in self.g.wire_tags.values() {
+            for t in tags {
+                *seen.entry(*t).or_insert(0) += 1;
+            }
+        }
+        let mut queued: BTreeSet<usize> = BTreeSet::new();
+        for c in &w.links {
+            for (d, _, _) in c.batch_sender.verif_queue() {
+                if let Some(t) = self.g.tag_of.get(&d) {
+                    queued.insert(*t);
+                }
+            }
+        }
+        for t in 0..self.g.accepted.len() {
+            let n = seen.get(&t).copied().unwrap_or(0);
+            if n == 0 && !queued.contains(&t) && !self.g.lost_ok.contains(&t) && !self.g.dropped.contains(&t) {
+                mon.fail("C01", "datagram-vanished", format!("accepted datagram #{t} was neither sent, queued, discarded by a reset/failed send, nor dropped for lack of a link"));
+            }
+        }
+        if !self.g.wire_tags.is_empty() && w.reg.has_connected {
+            mon.nontrivial();
+        }
+    }
+}
+
+impl SysComp {
+    /// C02 on the shell: after EVERY op each link's in-flight count equals the number of logged
+    /// sequence numbers, is not negative, and the log holds no number twice.
+    fn mon_c02(&self, mon: &mut Mon, toks: &[&str]) {
+        let Some(w) = self.w.as_ref() else { return };
+        for c in &w.links {
+            let log = c.verif_packet_log();
+            let n = log.len();
+            let mut keys: Vec<i32> = log.iter().map(|(s, _)| *s).collect();
+            keys.sort_unstable();
+            keys.dedup();
+            let op = || toks.iter().map(|t| &t[..t.len().min(40)]).collect::<Vec<_>>().join(" ");
+            if c.in_flight_packets < 0 {
+                mon.fail("C02", "sys-inflight-negative", format!("link {} in_flight {} after `{}`", c.conn_id, c.in_flight_packets, op()));
+            }
+            if c.in_flight_packets as i64 != n as i64 {
+                mon.fail("C02", "sys-inflight-vs-log", format!("link {} in_flight {} but the packet log holds {n} numbers after `{}`", c.conn_id, c.in_flight_packets, op()));
+            }
+            if keys.len() != n {
+                mon.fail("C02", "sys-log-duplicate", format!("link {} packet log holds a sequence number twice after `{}`", c.conn_id, op()));
+            }
+            if n > 0 {
+                mon.count("c02-nonempty-log-checked");
+            }
+        }
+    }
+
+    fn exec_op(&mut self, toks: &[&str], mon: &mut Mon) -> String {
         let op = toks.join(" ");
         if let ["init", n, seed, now] = toks {
             let (Ok(n), Ok(seed), Ok(now)) = (n.parse::<usize>(), seed.parse::<u64>(), now.parse::<u64>()) else {
@@ -532,6 +605,11 @@ impl Component for SysComp {
                         },
                         _ => return "bad-op".into(),
                     }
+                }
+                // a window injected into a link that is down survives REG3 (only tear-down resets it):
+                // the clean-rejoin monitor must not blame the code for it
+                if kvs.iter().any(|(k, _)| k == "w") && !c.connected {
+                    self.g.win_injected.insert(c.conn_id);
                 }
                 return w.show();
             }
@@ -662,35 +740,6 @@ impl Component for SysComp {
         let ws: Vec<String> = wire.iter().map(|(id, d)| format!("{id}:{}", to_hex(d))).collect();
         let cs: Vec<String> = client.iter().map(|d| to_hex(d)).collect();
         format!("wire=[{}] client=[{}] err={} | {}", ws.join(","), cs.join(","), show_bool(hk_err), w.show())
-    }
-
-    fn end_case(&mut self, mon: &mut Mon) {
-        // C01 exactly-once at the end of the case: every accepted tag was sent, is still queued,
-        // was legitimately lost, or was dropped with no usable link.
-        let Some(w) = self.w.as_ref() else { return };
-        let mut seen: BTreeMap<usize, usize> = BTreeMap::new();
-        for tags in self.g.wire_tags.values() {
-            for t in tags {
-                *seen.entry(*t).or_insert(0) += 1;
-            }
-        }
-        let mut queued: BTreeSet<usize> = BTreeSet::new();
-        for c in &w.links {
-            for (d, _, _) in c.batch_sender.verif_queue() {
-                if let Some(t) = self.g.tag_of.get(&d) {
-                    queued.insert(*t);
-                }
-            }
-        }
-        for t in 0..self.g.accepted.len() {
-            let n = seen.get(&t).copied().unwrap_or(0);
-            if n == 0 && !queued.contains(&t) && !self.g.lost_ok.contains(&t) && !self.g.dropped.contains(&t) {
-                mon.fail("C01", "datagram-vanished", format!("accepted datagram #{t} was neither sent, queued, discarded by a reset/failed send, nor dropped for lack of a link"));
-            }
-        }
-        if !self.g.wire_tags.is_empty() && w.reg.has_connected {
-            mon.nontrivial();
-        }
     }
 }
 
@@ -832,6 +881,9 @@ impl SysComp {
                     mon.count("teardown-by-timeout");
                 }
             }
+            if torn || attempt {
+                g.win_injected.remove(&c.conn_id);
+            }
             // retry spacing
             if attempt && kind == Kind::Hk {
                 mon.count("reconnect-attempt");
@@ -875,7 +927,8 @@ impl SysComp {
             if kind == Kind::Uplink && !pre[i].connected && c.connected {
                 mon.count("reg3-connected");
                 let clean = c.in_flight_packets == 0 && matches!(c.phase, LinkPhase::Warming { .. }) && c.verif_packet_log().is_empty() && c.batch_sender.queued_count() == 0;
-                if !clean || (pre[i].established != 0 && c.window != 20000) {
+                let injected = g.win_injected.remove(&c.conn_id);
+                if !clean || (pre[i].established != 0 && c.window != 20000 && !injected) {
                     mon.fail("C08", "unclean-rejoin", format!("link {} connected with window {} in_flight {} phase {}", c.conn_id, c.window, c.in_flight_packets, show_phase(&c.phase)));
                 }
             }
@@ -912,6 +965,14 @@ impl SysComp {
         match kind {
             Kind::Client => {
                 let data = parse_hex(toks[2]).unwrap_or_default();
+                mon.count(match data.len() {
+                    0 => "client-len-0",
+                    1..=3 => "client-len-1..3",
+                    4..=7 => "client-len-4..7",
+                    8..=23 => "client-len-8..23",
+                    24..=1316 => "client-len-24..1316",
+                    _ => "client-len-1317..1500",
+                });
                 if data.is_empty() {
                     return;
                 }
@@ -1009,6 +1070,17 @@ impl SysComp {
                     }
                     _ => mon.fail("C01", "unique-copy-missing", format!("datagram #{tag} is held by links {holders:?} but last_selected is {uniq:?}")),
                 }
+                // C05: the tracker remembers the link that carries the UNIQUE copy (never a probe link)
+                if let (Some(u), Some(sq)) = (uniq, get_srt_sequence_number(&data))
+                    && (holders.contains(&u) || failed_here.contains(&u))
+                {
+                    let got = w.trk.get(sq, now);
+                    if got != Some(w.links[u].conn_id) {
+                        mon.fail("C05", "sys-tracker-carrier", format!("data packet {sq} was routed to link {} (unique copy) but the tracker remembers {got:?}", w.links[u].conn_id));
+                    } else {
+                        mon.count("tracker-remembers-unique-carrier");
+                    }
+                }
                 // extra copies only on stall-gated, connected links (probes)
                 for h in &holders {
                     if Some(*h) != uniq {
@@ -1042,6 +1114,12 @@ impl SysComp {
                             }
                         } else {
                             mon.count("uplink-relayed");
+                            if data.len() > 64 {
+                                mon.count("uplink-relayed>64bytes");
+                            }
+                            if data.len() > 1316 {
+                                mon.count("uplink-relayed>1316bytes");
+                            }
                             mon.nontrivial();
                             if !client.iter().any(|d| *d == data) {
                                 mon.fail("C09", "not-relayed", format!("datagram type {pt:#x} ({} bytes) was not delivered unchanged to the client; client got {} datagrams", data.len(), client.len()));
@@ -1071,6 +1149,54 @@ impl SysComp {
                             mon.count("proof-stamped");
                         }
                     }
+                    // C10 / C06 window rules over ONE SRTLA ACK datagram, replayed entry by entry on a ghost:
+                    // +29 on the link that held the number (arrival link first) only while its remaining
+                    // in-flight x 1000 exceeds its window, +1 on every connected link that has heard
+                    // anything per acknowledged number, cap 60000
+                    if pt == SRTLA_TYPE_ACK && !reset.iter().any(|r| *r) {
+                        let list = parse_srtla_ack(&data);
+                        let nl = w.links.len().min(pre.len());
+                        let mut gw: Vec<i32> = pre.iter().map(|p| p.window).collect();
+                        let mut hw = gw.clone(); // as if the +1s were credited after the whole datagram
+                        let mut logs: Vec<Vec<i32>> = pre.iter().map(|p| p.log.clone()).collect();
+                        let mut straddled = false;
+                        for (k, sq) in list.iter().enumerate() {
+                            let si = *sq as i32;
+                            let h = if logs[i].contains(&si) { Some(i) } else { (0..nl).find(|j| *j != i && logs[*j].contains(&si)) };
+                            if let Some(h) = h {
+                                logs[h].retain(|x| *x != si);
+                                let inf_after = logs[h].len() as i32;
+                                let earn = inf_after.saturating_mul(1000) > gw[h];
+                                let earn_h = inf_after.saturating_mul(1000) > hw[h];
+                                if k >= 1 && earn != earn_h {
+                                    straddled = true;
+                                }
+                                if earn {
+                                    gw[h] = (gw[h] + 29).min(60000);
+                                }
+                                if earn_h {
+                                    hw[h] = (hw[h] + 29).min(60000);
+                                }
+                            }
+                            for j in 0..nl {
+                                if pre[j].connected && w.links[j].last_received.is_some() {
+                                    gw[j] = (gw[j] + 1).min(60000);
+                                }
+                            }
+                        }
+                        if list.len() >= 2 {
+                            mon.count("sack-multi-entry-datagram");
+                        }
+                        if straddled {
+                            mon.count("ack-threshold-straddled");
+                        }
+                        for j in 0..nl {
+                            if w.links[j].window != gw[j] {
+                                let prop = if cfg.mode.is_classic() { "C10" } else { "C06" };
+                                mon.fail(prop, "sys-ack-rule", format!("link {}: window {} -> {} on an SRTLA ACK datagram of {} entries arriving on link {}, the reference rules give {}", w.links[j].conn_id, pre[j].window, w.links[j].window, list.len(), w.links[i].conn_id, gw[j]));
+                            }
+                        }
+                    }
                     // C14: RTT sample from a keepalive only while a probe is outstanding and 0 < rtt <= 10 s
                     let c = &w.links[i];
                     if pt == SRTLA_TYPE_KEEPALIVE {
@@ -1096,6 +1222,15 @@ impl SysComp {
                 }
             }
             Kind::Hk => {
+                if let Some(t) = g.last_hk {
+                    mon.count(match now.saturating_sub(t) {
+                        0..=999 => "hk-gap<1000",
+                        1000 => "hk-gap=1000",
+                        1001..=1999 => "hk-gap-1001..1999",
+                        _ => "hk-gap>=2000",
+                    });
+                }
+                g.last_hk = Some(now);
                 let classic = cfg.mode.is_classic();
                 for i in 0..n.min(pre.len()) {
                     let c = &w.links[i];
@@ -1186,7 +1321,61 @@ fn control_packet(ty: u16, len: usize, counter: u64, rng: &mut Rng) -> Vec<u8> {
     b
 }
 
-fn gen_case(rng: &mut Rng, idx: usize) -> Vec<String> {
+/// Type codes a client datagram may carry besides plain data: every SRT control type, the
+/// all-ones code and the SRTLA codes (the uplink path must forward them like anything else).
+const CLIENT_TYPES: [u16; 18] = [
+    0x8000, 0x8001, 0x8002, 0x8003, 0x8004, 0x8005, 0x8006, 0x8007, 0x8008, 0xfffe, 0xffff, 0x9000, 0x9100, 0x9200,
+    0x9201, 0x9202, 0x9210, 0x9211,
+];
+
+/// Return-path type sweep: the SRT control page, the neighbours of every SRTLA code, the
+/// top-bit / zero / all-ones boundaries (none of them a registration reply).
+const UPLINK_SWEEP_TYPES: [u16; 24] = [
+    0x8000, 0x8001, 0x8002, 0x8003, 0x8004, 0x8005, 0x8006, 0x8007, 0x8fff, 0x9000, 0x9001, 0x90ff, 0x9100, 0x9101,
+    0x91ff, 0x9200, 0x9203, 0x920f, 0x9212, 0x9213, 0x0000, 0x7fff, 0xfffe, 0xffff,
+];
+
+/// A client datagram of exactly `len >= 1` bytes: SRT data carrying `seq` (top bit clear) when
+/// `seq` is given, else a datagram whose first two bytes are `ty`. Datagrams of 16 bytes and more
+/// carry the unique payload counter at 8..16; shorter ones are made unique by the caller.
+fn sized_client(rng: &mut Rng, len: usize, seq: Option<u32>, ty: u16, retx: bool, counter: u64) -> Vec<u8> {
+    let mut b = rng.bytes(len);
+    match seq {
+        Some(sq) => {
+            let h = (sq & 0x7fff_ffff).to_be_bytes();
+            for i in 0..len.min(4) {
+                b[i] = h[i];
+            }
+            if len > 4 {
+                b[4] = if retx { b[4] | 0x04 } else { b[4] & !0x04 };
+            }
+        }
+        None => {
+            let h = ty.to_be_bytes();
+            for i in 0..len.min(2) {
+                b[i] = h[i];
+            }
+        }
+    }
+    if len >= 16 {
+        b[8..16].copy_from_slice(&counter.to_be_bytes());
+    }
+    b
+}
+
+/// One length out of every client size class: 1..3 (no sequence number), 4..7 (sequence number, no
+/// flag byte), 8..23 (retransmit flag readable, shorter than every generator so far), 24..1316, 1317..1500.
+fn client_len_class(rng: &mut Rng) -> usize {
+    match rng.below(5) {
+        0 => rng.range(1, 3) as usize,
+        1 => rng.range(4, 7) as usize,
+        2 => rng.range(8, 23) as usize,
+        3 => *rng.pick(&[24usize, 25, 187, 1315, 1316]),
+        _ => *rng.pick(&[1317usize, 1400, 1472, 1499, 1500]),
+    }
+}
+
+fn gen_case(rng: &mut Rng, tier: Tier, idx: usize) -> Vec<String> {
     let n = rng.range(1, 4) as usize;
     let seed = rng.below(1 << 30);
     let mut now: u64 = 1_000_000 + rng.below(500_000);
@@ -1267,6 +1456,16 @@ fn gen_case(rng: &mut Rng, idx: usize) -> Vec<String> {
             up[i] = true;
         }
     }
+    // ---------------- arbitrary starting window vector (C10 / C06): boundaries of every window rule
+    const WINDOWS: [i32; 14] = [1000, 1001, 1029, 1100, 2000, 2001, 2100, 11971, 12000, 20000, 30000, 59971, 59999, 60000];
+    if rng.chance(1, 2) {
+        for i in 0..n {
+            if rng.chance(3, 4) {
+                let w = if rng.chance(1, 4) { rng.range(1000, 60000) as i32 } else { *rng.pick(&WINDOWS) };
+                ops.push(format!("setlink {i} w={w}"));
+            }
+        }
+    }
     // ---------------- straggler outage (C08): a link torn down by REG_ERR hears one late datagram and
     // then nothing; under a long configured timeout it must still keep re-registering
     if idx % 13 == 5 && n >= 2 && up.iter().all(|u| *u) {
@@ -1302,7 +1501,29 @@ fn gen_case(rng: &mut Rng, idx: usize) -> Vec<String> {
         ops.push(format!("uplink {now} {} {}", j + 1, hexs(&SRTLA_TYPE_REG3.to_be_bytes())));
     }
     // ---------------- data phase
-    let steps = rng.range(40, 260);
+    let steps = match tier {
+        Tier::Quick => rng.range(40, 260),
+        Tier::Thorough => rng.range(60, 450),
+    };
+    // housekeeping cadence of this case: the nominal 1000 ms, or ticks 1001..1999 ms apart (late timer)
+    let hk_mode = rng.below(3);
+    let hk_period = move |rng: &mut Rng| -> u64 {
+        match hk_mode {
+            0 | 1 => 1000,
+            _ => match rng.below(6) {
+                0 => 1001,
+                1 => 1999,
+                2 => 1500,
+                3 => 1000,
+                _ => rng.range(1001, 1999),
+            },
+        }
+    };
+    let mut next_hk = now + hk_period(rng);
+    // short client datagrams carry no payload counter: keep them distinct within the case
+    let mut used_short: BTreeSet<Vec<u8>> = BTreeSet::new();
+    // one return-path type sweep sample per case, somewhere in the data phase
+    let sweep_at = rng.range(3, steps.max(4) - 1);
     let mut seq: u32 = (rng.next_u64() as u32) & 0x7fff_0000;
     let mut counter: u64 = 1;
     let mut last_hk = now;
@@ -1312,6 +1533,86 @@ fn gen_case(rng: &mut Rng, idx: usize) -> Vec<String> {
     let mut silent: Vec<bool> = vec![false; n]; // black-holed links get no uplink traffic
     let base_rtt: Vec<u64> = (0..n).map(|_| *rng.pick(&[5u64, 20, 60, 150, 400])).collect();
     let mut needs_rereg: Vec<bool> = up.iter().map(|u| !*u).collect();
+    // ---------------- an SRTLA ACK datagram whose +29 test (in-flight x 1000 > window) flips INSIDE the
+    // datagram because of the +1 each earlier entry credited (C10 window rules, per-entry order)
+    if idx % 10 == 7 && up.iter().all(|u| *u) {
+        let classic = if rng.chance(4, 5) { 1 } else { 0 };
+        ops.push(format!("cfg classic={classic} quality=0 stall=0 minif=32 ceil=3000 cto=5000"));
+        let l = rng.below(n as u64) as usize;
+        let mut mine: Vec<u32> = Vec::new(); // in flight on link l
+        let mut theirs: Vec<u32> = Vec::new(); // in flight on some other link
+        for _round in 0..rng.range(1, 3) {
+            if mine.len() > 45 {
+                break;
+            }
+            // steer every packet to link l: 60000 / (in-flight + queued + 1) stays above 1000 / 1
+            for j in 0..n {
+                ops.push(format!("setlink {j} w={}", if j == l { 60000 } else { 1000 }));
+            }
+            let npk = rng.range(3, 40.min(55 - mine.len() as u64));
+            for _ in 0..npk {
+                ops.push(format!("client {now} {}", hexs(&data_packet(seq, false, 24, counter, rng))));
+                counter += 1;
+                mine.push(seq);
+                sent.push(seq);
+                seq = (seq + 1) & 0x7fff_ffff;
+            }
+            now += 15;
+            ops.push(format!("flush {now}"));
+            if n > 1 && rng.chance(1, 2) {
+                let m = (l + 1 + rng.below(n as u64 - 1) as usize) % n;
+                ops.push(format!("setlink {l} w=1000"));
+                ops.push(format!("setlink {m} w=60000"));
+                for _ in 0..rng.range(1, 3) {
+                    ops.push(format!("client {now} {}", hexs(&data_packet(seq, false, 24, counter, rng))));
+                    counter += 1;
+                    theirs.push(seq);
+                    sent.push(seq);
+                    seq = (seq + 1) & 0x7fff_ffff;
+                }
+                now += 15;
+                ops.push(format!("flush {now}"));
+            }
+            last_flush = now;
+            // entry k (1-based, >= 2) is owned by l; the others by l, by another link, or by nobody
+            let m_entries = rng.range(2, 10) as usize;
+            let k = rng.range(2, m_entries as u64) as usize;
+            let inf = mine.len() as i64;
+            let mut list: Vec<u32> = Vec::new();
+            let mut a = 0i64; // entries owned by l before position k
+            for pos in 1..=m_entries {
+                if (pos == k || rng.chance(2, 3)) && !mine.is_empty() {
+                    list.push(mine.remove(rng.below(mine.len() as u64) as usize));
+                    if pos < k {
+                        a += 1;
+                    }
+                } else if !theirs.is_empty() && rng.chance(1, 2) {
+                    list.push(theirs.remove(0));
+                } else {
+                    list.push(seq.wrapping_add(1000 + rng.below(1000) as u32) & 0x7fff_ffff);
+                }
+            }
+            // in-flight after entry k is removed = inf - a - 1; the a earlier own entries earn +29 + 1
+            // each, the other earlier entries credit +1 each: the test flips iff 1 <= d <= k - 1
+            let d = if rng.chance(2, 3) { rng.range(1, k as u64 - 1) as i64 } else { rng.below(13) as i64 };
+            let w0 = ((inf - a - 1) * 1000 - 29 * a - d).clamp(1000, 60000);
+            ops.push(format!("setlink {l} w={w0}"));
+            for j in 0..n {
+                if j != l {
+                    ops.push(format!("setlink {j} w={}", rng.pick(&WINDOWS)));
+                }
+            }
+            now += 1;
+            let arrival = if rng.chance(3, 4) { l } else { rng.below(n as u64) as usize };
+            ops.push(format!("uplink {now} {} {}", arrival + 1, hexs(&create_ack_packet(&list))));
+        }
+        while sent.len() > 64 {
+            sent.remove(0);
+        }
+        if rng.chance(1, 2) {
+            ops.push(cfg_line(rng));
+        }
+    }
     // some cases black-hole one link for ~4 s under sustained load so that the stall guard latches,
     // gates it and the 1-in-100 duplicate probes start flowing
     let bh_link = if n >= 2 && idx % 3 == 1 { Some(rng.below(n as u64) as usize) } else { None };
@@ -1342,9 +1643,10 @@ fn gen_case(rng: &mut Rng, idx: usize) -> Vec<String> {
             }
         };
         // timers first
-        while now.saturating_sub(last_hk) >= 1000 {
-            last_hk += 1000;
-            let t = last_hk.min(now);
+        while now >= next_hk {
+            last_hk = next_hk;
+            next_hk = last_hk + hk_period(rng);
+            let t = last_hk;
             // measured-rate swings move the batch regime (4 / 16 / 32) at this tick, possibly while
             // datagrams are still queued
             if rng.chance(2, 5) {
@@ -1413,16 +1715,47 @@ fn gen_case(rng: &mut Rng, idx: usize) -> Vec<String> {
             ops.push(format!("flush {now}"));
             last_flush = now;
         }
+        // return-path type sweep sample: one datagram per type code of a run through the sweep table
+        // (SRT control page, neighbours of the SRTLA codes, boundaries, a random code), lengths on
+        // both sides of the 64-byte inline capacity up to the MTU
+        if step == sweep_at {
+            let live: Vec<usize> = (0..n).filter(|j| !silent[*j]).collect();
+            if !live.is_empty() {
+                let off = rng.below(UPLINK_SWEEP_TYPES.len() as u64) as usize;
+                for k in 0..8usize {
+                    let j = *rng.pick(&live);
+                    let ty = if k == 7 { rng.next_u64() as u16 } else { UPLINK_SWEEP_TYPES[(off + k) % UPLINK_SWEEP_TYPES.len()] };
+                    let len = *rng.pick(&[2usize, 3, 16, 63, 64, 65, 100, 512, 1316, 1500]);
+                    let mut b = rng.bytes(len);
+                    b[..2].copy_from_slice(&ty.to_be_bytes());
+                    ops.push(format!("uplink {now} {} {}", j + 1, hexs(&b)));
+                }
+                // now and then a registration reply of unusual size (handled by type code alone)
+                if rng.chance(1, 10) {
+                    let j = *rng.pick(&live);
+                    let ty = *rng.pick(&[SRTLA_TYPE_REG2, SRTLA_TYPE_REG_NGP, SRTLA_TYPE_REG3, SRTLA_TYPE_REG_ERR]);
+                    let len = *rng.pick(&[3usize, 65, 257, 259, 1500]);
+                    let mut b = rng.bytes(len);
+                    b[..2].copy_from_slice(&ty.to_be_bytes());
+                    ops.push(format!("uplink {now} {} {}", j + 1, hexs(&b)));
+                    if ty == SRTLA_TYPE_REG_ERR {
+                        needs_rereg[j] = true;
+                    }
+                }
+            }
+        }
         // return-path backlog: more datagrams queued on the uplink channel than one drain call takes
         if rng.chance(1, 70) {
             let j = rng.below(n as u64) as usize;
-            let cnt = *rng.pick(&[3u64, 63, 64, 65, 66, 90, 100]);
-            let mut b = match rng.below(3) {
+            let len = *rng.pick(&[16usize, 32, 64, 65, 100, 200, 1316, 1500]);
+            // MTU-sized copies: keep the whole backlog within the client socket's receive buffer
+            let cnt = if len > 200 { *rng.pick(&[3u64, 63, 64, 65, 66]) } else { *rng.pick(&[3u64, 63, 64, 65, 66, 90, 100]) };
+            let mut b = match rng.below(4) {
                 0 => vec![0x80, 0x00],
                 1 => vec![0x80, 0x06],
+                2 => rng.pick(&UPLINK_SWEEP_TYPES).to_be_bytes().to_vec(),
                 _ => vec![0x12, 0x34],
             };
-            let len = *rng.pick(&[16usize, 32, 64, 100, 200]);
             while b.len() < len {
                 b.push(rng.below(256) as u8);
             }
@@ -1434,6 +1767,34 @@ fn gen_case(rng: &mut Rng, idx: usize) -> Vec<String> {
             0..=17 => {
                 // client data burst
                 for _ in 0..rng.range(1, 12) {
+                    if rng.chance(1, 6) {
+                        // one datagram out of a size class the plain generator never produces
+                        let len = client_len_class(rng);
+                        let as_data = rng.chance(2, 3);
+                        let retx = len > 4 && rng.chance(1, 8);
+                        let sq = if retx && !sent.is_empty() { *rng.pick(&sent) } else { seq };
+                        let mut pkt = None;
+                        for _ in 0..12 {
+                            let ty = *rng.pick(&CLIENT_TYPES);
+                            let b = sized_client(rng, len, if as_data { Some(sq) } else { None }, ty, retx, counter);
+                            if len >= 16 || used_short.insert(b.clone()) {
+                                pkt = Some(b);
+                                break;
+                            }
+                        }
+                        if let Some(b) = pkt {
+                            ops.push(format!("client {now} {}", hexs(&b)));
+                            counter += 1;
+                            if get_srt_sequence_number(&b) == Some(seq) {
+                                sent.push(seq);
+                                seq = (seq + 1) & 0x7fff_ffff;
+                            }
+                            if sent.len() > 64 {
+                                sent.remove(0);
+                            }
+                        }
+                        continue;
+                    }
                     let len = *rng.pick(&[24usize, 32, 64, 188, 1316, 1316]);
                     let retx = rng.chance(1, 12);
                     let s = if retx && !sent.is_empty() { *rng.pick(&sent) } else { seq };
@@ -1464,19 +1825,35 @@ fn gen_case(rng: &mut Rng, idx: usize) -> Vec<String> {
                 }
             }
             18 => {
-                ops.push(format!("client {now} {}", hexs(&control_packet(*rng.pick(&[0x8002u16, 0x8003, 0x8000, 0x8005, 0x8006]), 32, counter, rng))));
-                counter += 1;
+                if rng.chance(1, 2) {
+                    ops.push(format!("client {now} {}", hexs(&control_packet(*rng.pick(&[0x8002u16, 0x8003, 0x8000, 0x8005, 0x8006]), 32, counter, rng))));
+                    counter += 1;
+                } else if rng.chance(1, 12) {
+                    // a zero-length read from the local socket
+                    ops.push(format!("client {now} -"));
+                } else {
+                    let len = if rng.chance(1, 2) { client_len_class(rng) } else { *rng.pick(&[2usize, 3, 4, 8, 16, 24, 44, 100, 1316, 1500]) };
+                    for _ in 0..12 {
+                        let ty = *rng.pick(&CLIENT_TYPES);
+                        let b = sized_client(rng, len, None, ty, false, counter);
+                        if len >= 16 || used_short.insert(b.clone()) {
+                            ops.push(format!("client {now} {}", hexs(&b)));
+                            counter += 1;
+                            break;
+                        }
+                    }
+                }
             }
             19..=24 if !silent[i] => {
                 // SRTLA ACK list for recently sent numbers
-                let k = rng.range(1, 8) as usize;
+                let k = if rng.chance(1, 8) { *rng.pick(&[15u64, 16, 17, 64, 200, 374]) as usize } else { rng.range(1, 8) as usize };
                 let l: Vec<u32> = (0..k).map(|_| if sent.is_empty() || rng.chance(1, 8) { rng.next_u64() as u32 & 0x7fff_ffff } else { *rng.pick(&sent) }).collect();
                 ops.push(format!("uplink {now} {} {}", i + 1, hexs(&create_ack_packet(&l))));
             }
             25..=27 if !silent[i] => {
                 // cumulative SRT ACK
                 let a = if sent.is_empty() { seq } else { *rng.pick(&sent) };
-                let blen = *rng.pick(&[20usize, 24, 44, 19]);
+                let blen = *rng.pick(&[20usize, 24, 44, 19, 64, 65, 188, 1500]);
                 let mut b = rng.bytes(blen);
                 b[0] = 0x80;
                 b[1] = 0x02;
@@ -1488,7 +1865,11 @@ fn gen_case(rng: &mut Rng, idx: usize) -> Vec<String> {
             28..=29 if !silent[i] => {
                 // NAK: singles and a range
                 let mut b = vec![0x80, 0x03, 0, 0];
-                for _ in 0..rng.range(1, 3) {
+                let entries = if rng.chance(1, 8) { *rng.pick(&[15u64, 16, 40, 120, 374]) } else { rng.range(1, 3) };
+                for _ in 0..entries {
+                    if b.len() + 8 > 1500 {
+                        break;
+                    }
                     let s = if sent.is_empty() { seq } else { *rng.pick(&sent) };
                     if rng.chance(1, 3) {
                         b.extend_from_slice(&(s | 0x8000_0000).to_be_bytes());
@@ -1513,13 +1894,25 @@ fn gen_case(rng: &mut Rng, idx: usize) -> Vec<String> {
                 match rng.below(5) {
                     0 => b.truncate(rng.range(2, 9) as usize),
                     1 => b.extend(rng.bytes(28)),
+                    2 if rng.chance(1, 2) => {
+                        let k = *rng.pick(&[54usize, 55, 56, 90, 1306, 1490]);
+                        b.extend(rng.bytes(k))
+                    }
                     _ => {}
                 }
                 ops.push(format!("uplink {now} {} {}", i + 1, hexs(&b)));
             }
             33 if !silent[i] => {
                 // unknown / short / odd datagrams
-                let b = match rng.below(5) {
+                let b = match rng.below(8) {
+                    5..=7 => {
+                        // relayed datagram past the 64-byte inline capacity of the uplink channel's SmallVec
+                        let ty = if rng.chance(1, 4) { rng.next_u64() as u16 } else { *rng.pick(&UPLINK_SWEEP_TYPES) };
+                        let len = *rng.pick(&[63usize, 64, 65, 66, 100, 188, 512, 1316, 1317, 1472, 1500]);
+                        let mut b = rng.bytes(len);
+                        b[..2].copy_from_slice(&ty.to_be_bytes());
+                        b
+                    }
                     0 => rng.bytes(1),
                     1 => vec![0x90, 0x00],
                     2 => control_packet(*rng.pick(&[0x8000u16, 0x8005, 0x8001, 0x7fff, 0x9212]), 24, counter, rng),
@@ -1557,12 +1950,16 @@ fn gen_case(rng: &mut Rng, idx: usize) -> Vec<String> {
                 ops.push(format!("crit {}", now + rng.below(400)));
             }
             39 => {
-                ops.push(format!(
+                let mut l = format!(
                     "setlink {i} weak={} ld={} cct={}",
                     rng.below(2),
                     if rng.chance(1, 4) { 1 } else { 0 },
                     rng.pick(&[0u64, 0, 100_000, 2_000_000, 50_000_000])
-                ));
+                );
+                if rng.chance(1, 3) {
+                    l += &format!(" w={}", if rng.chance(1, 4) { rng.range(1000, 60000) as i32 } else { *rng.pick(&WINDOWS) });
+                }
+                ops.push(l);
             }
             _ => {
                 // re-registration replies for links that were torn down
@@ -1578,8 +1975,9 @@ fn gen_case(rng: &mut Rng, idx: usize) -> Vec<String> {
         if rng.chance(1, 60) {
             let gap = *rng.pick(&[5_100u64, 6_000, 11_000, 31_000]);
             let end = now + gap;
-            while last_hk + 1000 <= end {
-                last_hk += 1000;
+            while next_hk <= end {
+                last_hk = next_hk;
+                next_hk = last_hk + hk_period(rng);
                 ops.push(format!("hk {last_hk}"));
                 ka_times.push(last_hk);
                 // surviving links keep answering keepalives
